@@ -401,6 +401,19 @@ func (r *fnResolver) locs1(v ssa.Value, sub string) []Loc {
 // returns "B:<name of n>".
 func tailSym(low ssa.Value) string {
 	b, ok := stripConv(low).(*ssa.BinOp)
+	if ok && b.Op == token.MUL {
+		// (n/K)*K, the same position written the other way
+		for _, pr := range [][2]ssa.Value{{b.X, b.Y}, {b.Y, b.X}} {
+			if q, ok := stripConv(pr[0]).(*ssa.BinOp); ok && q.Op == token.QUO {
+				k1, ok1 := constInt(q.Y)
+				k2, ok2 := constInt(pr[1])
+				if ok1 && ok2 && k1 == k2 && k1 > 1 {
+					return fmt.Sprintf("%d:%s", k1, stripConv(q.X).Name())
+				}
+			}
+		}
+		return ""
+	}
 	if !ok || b.Op != token.SUB {
 		return ""
 	}
